@@ -1,7 +1,7 @@
 (* C03 - a frame or time window read equals the same slice of a full read.
    Only statements, closed by [exact], each followed by Print Assumptions. *)
 From Coq Require Import ZArith NArith List String Bool.
-Require Import ListN Result Bytes Prog Codec PoseRead CodecRT PoseReadLemmas WindowLemmas StreamRead C03_Window C03_Consume C03_StreamReject CodecGenTie C03_Examples C03_ExamplesConsume.
+Require Import ListN Result Bytes Prog Codec PoseRead CodecRT PoseReadLemmas WindowLemmas StreamLemmas StreamRead StreamBack StreamIndep C03_Window C03_Consume C03_StreamReject CodecGenTie C03_Examples C03_ExamplesConsume.
 Import ListNotations.
 Open Scope N_scope.
 
@@ -45,6 +45,56 @@ Theorem C03_stream_simulates_bytes :
     fst (fst (read_stream legacy m q a)) = Ok pose /\ snd (fst (read_stream legacy m q a)) = snd (read_bytes legacy m q a).
 Proof. exact read_stream_as_bytes. Qed.
 Print Assumptions C03_stream_simulates_bytes.
+
+(* "Whatever was read earlier in the process", for ANY byte string (written file or not): what a windowed stream read returns
+   under a sound memo is what it returns in a fresh process - the same pose, or both raise (which exception is raised when the
+   bytes run out may differ: EOFError if the retained buffer is empty, struct.error otherwise).  The memo only sets the length
+   of the first prefetch and may save the header parse; [amount_indep] shows that a v0.2 decoder never observes how much of the
+   stream is buffered beyond its read position.  The hypothesis on the body decoder holds for the library's v0.2 / unknown-version
+   decoders (second theorem); the v0.1 decoder asks bytes_left() and is covered by C04's own theorems. *)
+Theorem C03_stream_result_independent_of_memo :
+  forall legacy m q a, MemoOK m -> any_arg a = true -> (forall h, StreamLemmas.v2prog (read_body legacy h a)) ->
+    same_outcome (fst (fst (read_stream legacy m q a))) (fst (fst (read_stream legacy None q a))).
+Proof. exact read_stream_memo_independent. Qed.
+Print Assumptions C03_stream_result_independent_of_memo.
+Theorem C03_stream_result_independent_of_memo_v02 :
+  forall m q a, MemoOK m -> any_arg a = true ->
+    same_outcome (fst (fst (read_stream no_legacy m q a))) (fst (fst (read_stream no_legacy None q a))).
+Proof. intros m q a Hm Ha. apply read_stream_memo_independent; [exact Hm|exact Ha|]. intros h. apply v2prog_no_legacy. Qed.
+Print Assumptions C03_stream_result_independent_of_memo_v02.
+(* Two readers of one stream at the same position return the same values from any v0.2 program, whatever each holds beyond it. *)
+Theorem C03_stream_buffered_amount_unobservable :
+  forall A q (p : prog A), StreamLemmas.v2prog p -> forall s1 s2, Twin q s1 s2 ->
+    twin_result q (run_stream q p s1) (run_stream q p s2).
+Proof. exact @amount_indep. Qed.
+Print Assumptions C03_stream_buffered_amount_unobservable.
+(* The header a stream read parses (memo miss) is the header the plain reader parses from the whole byte string, at the same end
+   offset, and the memo entry it stores is sound; hence every stream read leaves a sound memo (the hypothesis [MemoOK] of all
+   the theorems above holds again for the next read, whatever mix of byte and stream reads came before). *)
+Theorem C03_stream_header_is_the_bytes_header :
+  forall (legacy : vclass -> header -> rargs -> prog body) q m r1 h r2,
+    expect q (prefetch_len m) {| buf := []; off := 0; skipped := 0; pulled := 0 |} = Ok r1 ->
+    run_stream q rd_header r1 = Ok (h, r2) ->
+    run_plain rd_header {| pbuf := q; poff := 0 |} = Ok (h, {| pbuf := q; poff := off r2 |}) /\
+    py_slice 0 (off r2) (buf r2) = py_slice 0 (off r2) q /\
+    MemoOK (Some {| m_start := 0; m_end := off r2; m_slice := py_slice 0 (off r2) (buf r2); m_header := h |}).
+Proof. exact stream_header_bwd. Qed.
+Print Assumptions C03_stream_header_is_the_bytes_header.
+Theorem C03_stream_leaves_sound_memo :
+  forall legacy m q a, MemoOK m -> MemoOK (snd (fst (read_stream legacy m q a))).
+Proof. exact read_stream_memo_ok. Qed.
+Print Assumptions C03_stream_leaves_sound_memo.
+(* The converse of C03_stream_simulates_bytes is FALSE for programs with skips, and the model shows where: after a skip past the
+   end of the stream BytesIOReader serves a zero-length block (an empty slice of its retained buffer is in range) that
+   BufferReader refuses (offset beyond the buffer).  Reachable only with a zero-frame window of a truncated file; C07 covers
+   what such a read may return. *)
+Theorem C03_stream_converse_refuted :
+  let p : prog bytes := Skip 5 (Block 0 (fun b => Ret b)) in
+  let sr := {| buf := [1; 2]; off := 0; skipped := 0; pulled := 2 |} in
+  fst (match run_stream [1; 2] p sr with Ok x => Ok (fst x) | Err e => Err e end, 0) = Ok [] /\
+  run_plain p {| pbuf := [1; 2]; poff := 0 |} = Err StructError.
+Proof. exact bwd_counterexample. Qed.
+Print Assumptions C03_stream_converse_refuted.
 
 Theorem C03_stream_without_window_args :
   forall legacy m file a, any_arg a = false -> fst (read_stream legacy m file a) = read_bytes legacy m file a.
